@@ -121,6 +121,15 @@ func (b *builder) geom(depth int) vkit.GJ {
 	case "MultiLineString":
 		n := rapid.IntRange(0, 4).Draw(b.t, "nm")
 		for i := 0; i < n; i++ {
+			if i > 0 && len(g.Rings[i-1]) >= 3 && rapid.IntRange(0, 3).Draw(b.t, "twinline") == 1 {
+				// a twin of the previous line: same vertex count, same first and last vertex, all interior vertices in a
+				// block of its own (two different paths between the same two points)
+				prev := g.Rings[i-1]
+				tw := b.pts(len(prev))
+				tw[0], tw[len(tw)-1] = prev[0], prev[len(prev)-1]
+				g.Rings = append(g.Rings, tw)
+				continue
+			}
 			g.Rings = append(g.Rings, b.pts(b.count(1, 5)))
 		}
 	case "Polygon":
@@ -557,7 +566,7 @@ func TestProp(t *testing.T) {
 	vkit.Main(t, vkit.Spec[Case]{
 		ID: "C15",
 		Rule: "rapid: base geometry g of any of the eight types (collections nested to depth 2, members possibly empty; members of 0-6 vertices, a few per cent 250-450) on a lattice of spacing 100*tol with every leaf member in " +
-			"its own block (distinct members far apart) and closed rings having a unique left-most vertex by a lattice step (a quarter of the later rings of a polygon are 'twins' of their predecessor: same vertex count, same left-most vertex and up to two following vertices, everything else far away); h = g with every coordinate perturbed by <0.45*tol " +
+			"its own block (distinct members far apart) and closed rings having a unique left-most vertex by a lattice step (a quarter of the later rings of a polygon are 'twins' of their predecessor: same vertex count, same left-most vertex and up to two following vertices, everything else far away; likewise a quarter of the later members of a multi-line-string share both end points and the vertex count with their predecessor); h = g with every coordinate perturbed by <0.45*tol " +
 			"(closing vertex kept equal to the first), members of multi-line-strings/multi-polygons/polygon rings/collections permuted and ring start vertices rotated -> must be " +
 			"similar; or additionally one negative edit (other type, member inserted/deleted at any position, vertex inserted/deleted, line reversed, one vertex displaced by " +
 			"2-50*tol) at a random nesting level -> must not be similar. Both directions are evaluated and must agree with each other and with the constructed truth. " +
